@@ -29,7 +29,7 @@ class C30(S.SchedCheck):
                    "other asyncio tasks cannot reach scheduler state (they act on a disjoint world in the model; none are scheduled in the harness run)",
                    "asyncio.SelectorEventLoop, CPython 3.12"] + S.SchedCheck.assumptions
     rule = ("all profiles of the family (mixed ops faults time plain: extend/remove ops, raise/kbint/failing enter, nesting, limits incl. 0/negative/non-multiples) + timing profiles of C03 "
-            "+ family corpus; every case is run twice on the real code (do, ado); ~a quarter of the cases reach the program through a history / other entry point (schedt.run_var variants), ~12% are points of the constructor x call-argument GRID (temp None/False/True on both sides, limit/tyme given or defaulted incl. 0, doers at construction or at the call, real, a doer re-setting Doist.limit in mid run) run with doers that log the injected temp / tock / tymth (oracle only); ~18% are HISTORIES of 2-3 runs on ONE Doist object (limit given as an argument or not at all — sticky —, new doers= / none, tyme= or continuing, stale deeds from a hand-made enter() without exit()), executed all-through-do, all-through-ado and alternating, every run compared pairwise (oracle only, driver answers (unmodelled)); another quarter additionally fix a cycle j at whose await a second asyncio task cancels the ado task.  non-trivial = as C01 or >= 10 recur events; distinct by request line")
+            "+ family corpus; every case is run twice on the real code (do, ado); ~a quarter of the cases reach the program through a history / other entry point (schedt.run_var variants), ~12% are points of the constructor x call-argument GRID (temp None/False/True on both sides, limit/tyme given or defaulted incl. 0, doers at construction or at the call, real, a doer re-setting Doist.limit in mid run) run with doers that log the injected temp / tock / tymth (oracle only); ~18% are HISTORIES of 2-3 runs on ONE Doist object (limit given as an argument or not at all — sticky —, new doers= / none, tyme= or continuing, stale deeds from a hand-made enter() without exit()), executed all-through-do, all-through-ado, with all ado coroutine objects built ahead and awaited later in order, and alternating, every run compared pairwise (oracle only, driver answers (unmodelled)); another quarter additionally fix a cycle j at whose await a second asyncio task cancels the ado task.  non-trivial = as C01 or >= 10 recur events; distinct by request line")
 
     focus = ()
 
@@ -137,6 +137,7 @@ class C30(S.SchedCheck):
             n = len(steps)
             alt = ["do" if k % 2 == 0 else "ado" for k in range(n)]
             return T.HistObs({"all-do": T.run_hist(c, steps, ["do"] * n), "all-ado": T.run_hist(c, steps, ["ado"] * n),
+                              "ado-coroutines-built-ahead": T.run_hist_prebuilt(c, steps),
                               "do-ado-alternating": T.run_hist(c, steps, alt),
                               "ado-do-alternating": T.run_hist(c, steps, ["ado" if m == "do" else "do" for m in alt])})
         if case[0] == "cancel":
